@@ -144,6 +144,11 @@ static string execCase(const Case& c) {
     Reply r = tcp(W, c.text, &user, &mode);
     return string(getResultCode(r.ret)) + " / " + r.text;
   }
+  if (c.kind == "httpraw") {  // the text is the complete byte stream of the request (any request line shape)
+    string u;
+    Reply r = runRequest(W, true, c.text, &u);
+    return string(r.complete ? "complete" : "incomplete") + ", status " + std::to_string(httpStatus(r.text));
+  }
   if (c.kind == "http") {
     Reply r = httpGet(W, c.text);
     return "status " + std::to_string(httpStatus(r.text));
@@ -182,7 +187,25 @@ static string execCase(const Case& c) {
   return "unknown kind";
 }
 // One case on a fresh world: input, probe, teardown.  Returns 0 or 20 (probe changed).
+// light cases: only the request object (RequestImpl::add + split) on the sanitised build, no daemon state
+static int lightCase(const Case& c) {
+  bool http = c.kind == "rqh";
+  RequestImpl req(http);
+  bool done = req.add(c.text.c_str());
+  vector<string> args;
+  if (done) req.split(&args);
+  // the same bytes delivered in two pieces (cut in the middle) through one object
+  RequestImpl req2(http);
+  size_t half = c.text.size() / 2;
+  bool done2 = half > 0 && req2.add(c.text.substr(0, half).c_str());
+  if (!done2) done2 = req2.add(c.text.substr(half).c_str());
+  vector<string> args2;
+  if (done2) req2.split(&args2);
+  childSay(string(done ? "complete, " : "incomplete, ") + std::to_string(args.size()) + " argument(s)");
+  return 0;
+}
 static int caseBody(const Case& c) {
+  if (c.kind == "rq" || c.kind == "rqh") return lightCase(c);
   g_now = 1700000000;
   W = freshWorld(false);
   string a = c.kind == "noop" ? "" : execCase(c);
@@ -477,6 +500,82 @@ int main(int argc, char** argv) {
     });
     flushBatch();
     R.sample("http: e.g. <GET /data/main/temp?%n HTTP/1.1>, <GET /%%*s%n HTTP/1.1> -> every concatenation of <=" + std::to_string(httpLen) + " of " + std::to_string(N_HTTP) + " URI tokens");
+  }
+  if (only.empty() || only == "shapes") {
+    // (a) lines with empty tokens (i.e. leading / trailing / repeated blanks, blanks only) and unbalanced quotes
+    {
+      static const char* QT[] = {"", "\"a", "b\"", "''", "\"", "read", "main"};
+      forSequences(7, 4, [&](const vector<size_t>& s) {
+        if (s.empty()) return;
+        string line;
+        for (size_t i = 0; i < s.size(); i++) line += (i ? " " : "") + string(QT[s[i]]);
+        Case c{"tcp", line};
+        runOne(c, "tcp-shape", "blanks-quotes");
+      });
+    }
+    // (b) every command word with every option spelling of any usage text: CMD -X, CMD -X main, CMD -X main temp
+    {
+      static const char* OPTS[] = {"-h", "-c", "-p", "-f", "-m", "-d", "-s", "-i", "-def", "-l", "-n", "-N", "-v", "-vv", "-vvv", "-vvvv", "-V", "-VV",
+                                   "-F", "-e", "-r", "-w", "-a", "-u", "-U", "-?", "--help", "-x"};
+      for (size_t ci = 0; ci < 22; ci++) for (const char* o : OPTS) for (const char* tail : {"", " main", " main temp", " -c", " -c main"}) {
+        Case c{"tcp", string(TCP_TOKENS[ci]) + " " + o + tail};
+        runOne(c, "tcp-shape", firstWord(c.text));
+      }
+    }
+    // (c) complete named forms plus one / two further tokens (4 and 5 token lines, also in quick)
+    {
+      static const char* PRE[] = {"write -c main", "read -c main", "read -f -c", "find -c main", "write -s 10", "read -m 5"};
+      for (const char* pre : PRE) for (size_t t1 = 0; t1 < N_TCP; t1++) {
+        Case c{"tcp", string(pre) + " " + TCP_TOKENS[t1]};
+        runOne(c, "tcp-shape", firstWord(c.text));
+        if (pre == PRE[0] || pre == PRE[1]) for (size_t t2 = 0; t2 < N_TCP; t2++) {
+          Case c2{"tcp", string(pre) + " " + TCP_TOKENS[t1] + " " + TCP_TOKENS[t2]};
+          runOne(c2, "tcp-shape", firstWord(c2.text));
+        }
+      }
+    }
+    // (d) HTTP request lines of other shapes than "GET <uri> HTTP/1.1": no version, no URI, lower case method,
+    //     doubled blanks, other method, LF and CRLF, with and without a header line
+    {
+      static const char* URIS[] = {"/", "/x.js", "/data/main/temp", "%", ""};
+      static const char* SHAPES[] = {"GET {u}", "GET {u} HTTP/1.1", "GET  {u} HTTP/1.1", "GET {u}  HTTP/1.1", "get {u} HTTP/1.1", "GET {u} HTTP/", "GET {u} http/1.1",
+                                     "POST {u} HTTP/1.1", "GET {u} HTTP/1.1 HTTP/1.1", " GET {u} HTTP/1.1", "{u}", "HTTP/1.1", " HTTP/1.1", "GET", "GET ", " ", ""};
+      for (const char* sh : SHAPES) for (const char* u : URIS) for (const char* eol : {"\n", "\r\n"}) for (int hdr = 0; hdr < 2; hdr++) {
+        string line = sh;
+        size_t p = line.find("{u}");
+        if (p != string::npos) line.replace(p, 3, u); else if (u != URIS[0]) continue;
+        Case c{"httpraw", line + eol + (hdr ? string("Host: x") + eol : "") + eol};
+        runOne(c, "http-shape", "request-line");
+      }
+    }
+    flushBatch();
+    // (e) the request object alone under the sanitizers: every string over a small alphabet as a command line /
+    //     as the URI of a request line (add + split, whole and in two pieces)
+    {
+      size_t saved = g_batch;
+      g_batch = 5000;
+      vector<string> lines = {""};
+      const string alpha = "a \"'";
+      size_t maxLen = th ? 8 : 7;
+      vector<string> cur = {""};
+      for (size_t l = 1; l <= maxLen; l++) {
+        vector<string> next;
+        for (auto& x : cur) for (char ch : alpha) next.push_back(x + ch);
+        for (auto& x : next) { Case c{"rq", x + "\n"}; runOne(c, "request-object", "tcp-line"); }
+        cur.swap(next);
+      }
+      const string ualpha = "/a%2? ";
+      cur = {""};
+      for (size_t l = 1; l <= (th ? 7 : 6); l++) {
+        vector<string> next;
+        for (auto& x : cur) for (char ch : ualpha) next.push_back(x + ch);
+        for (auto& x : next) { Case c{"rqh", "GET " + x + " HTTP/1.1\r\n\r\n"}; runOne(c, "request-object", "http-line"); Case c2{"rqh", x + "\n\n"}; runOne(c2, "request-object", "http-line"); }
+        cur.swap(next);
+      }
+      flushBatch();
+      g_batch = saved;
+    }
+    R.sample("shapes: e.g. <  > (blanks only), <read \"a  b\">, <find -F>, <write -c main setp>, <GET /x.js\\n\\n> (no version), <get  / HTTP/1.1>; all strings over {a,blank,\",'} of length<=7 through RequestImpl");
   }
   if (only.empty() || only == "csv") {
     for (size_t fi = 0; fi < N_FRAMES; fi++) {
